@@ -126,7 +126,14 @@ def live_net(ctx, env):
     ctx.case(("net_if", tuple(names)))
 
 
+def replay(ctx, data):
+    from harness.props import x17
+    return x17.replay(ctx, data)
+
+
 def warm(ctx):
+    from harness.props import x17
+    x17.warm(ctx)
     rd = tlc.dump_cached("CExt", {"Families": {"utmp", "mounts", "args"}}, view=None)
     functional.events_of(rd)
     snap = build.snapshot(asan=True)
@@ -194,6 +201,14 @@ def check(ctx):
         live_net(ctx, env)
     finally:
         build.cleanup(snap)
+    # the Python layer above the extension (mount-entry filter and root-device finder,
+    # net_if_stats / net_if_addrs front ends, users()) over tables the live kernel of
+    # this sandbox cannot present: spec/SysTables.tla
+    from harness import forkpool
+    from harness.props import x17
+    from harness.tmpl import template
+    forkpool.start(16, init=template)
+    x17.check_extra(ctx, thorough)
 
 
 def main(prop, argv):
